@@ -1338,7 +1338,31 @@ private:
     const bool is_callee_recursive =
         (m_ctx.get_widening_set().count(callee_cg_node) > 0 ||
          m_ctx.included_nested_wto_component(callee_cg_node));
-    if (m_ctx.analyze_recursive_functions() || !is_callee_recursive) {
+    // Even if recursive functions are analyzed precisely, the fixpoint
+    // is driven by the head of the cycle. If the cycle is entered
+    // through another member while none of its heads is being
+    // analyzed then the calls that come back to that member are not
+    // re-analyzed, so it must also start from top.
+    bool is_cycle_entered_through_its_head = true;
+    if (m_ctx.analyze_recursive_functions() &&
+        m_ctx.included_nested_wto_component(callee_cg_node)) {
+      is_cycle_entered_through_its_head = false;
+      auto &func_fixpoint_table = m_ctx.get_func_fixpoint_table();
+      if (boost::optional<typename global_context_t::wto_cg_nesting_t> nesting_opt =
+              m_ctx.get_wto_cg_map()[m_ctx.get_current_entry()]->nesting(
+                  callee_cg_node)) {
+        for (auto it = (*nesting_opt).begin(), et = (*nesting_opt).end();
+             it != et; ++it) {
+          if (func_fixpoint_table.find(*it) != func_fixpoint_table.end()) {
+            is_cycle_entered_through_its_head = true;
+            break;
+          }
+        }
+      }
+    }
+    if ((m_ctx.analyze_recursive_functions() &&
+         is_cycle_entered_through_its_head) ||
+        !is_callee_recursive) {
       // If we do not analyze precisely recursive functions then we
       // must start the analysis of a recursive procedure without
       // propagating from caller to callee (i.e., top).
